@@ -535,6 +535,83 @@ func runC17(c *eng.Ctx) {
 					}
 					okU = true
 				}
+				if !okU {
+					// restored through a helper that is handed &q.F and the carrier field (unmarshalOptionalExpr(inner.F, &q.F))
+					for _, b := range uj.Blocks {
+						for _, in := range b.Instrs {
+							cl, isCall := in.(*ssa.Call)
+							if !isCall {
+								continue
+							}
+							hg := eng.TransparentCallee(in)
+							if hg == nil {
+								continue
+							}
+							target, from, src := -1, -1, ""
+							for ai, a := range cl.Common().Args {
+								if fa, ok := a.(*ssa.FieldAddr); ok && eng.FieldKeyOfAddr(fa) == tkey+f {
+									target = ai
+									continue
+								}
+								eng.WalkExpr(a, func(x ssa.Value) bool {
+									if fa, ok := x.(*ssa.FieldAddr); ok && strings.HasPrefix(eng.FieldKeyOfAddr(fa), ckey) {
+										k := eng.FieldKeyOfAddr(fa)
+										src = k[strings.LastIndex(k, ".")+1:]
+										from = ai
+									}
+									return true
+								})
+							}
+							if target < 0 || from < 0 || target >= len(hg.Params) || from >= len(hg.Params) {
+								continue
+							}
+							onParam := func(v ssa.Value) bool {
+								hit := false
+								eng.WalkExpr(v, func(x ssa.Value) bool {
+									if x == ssa.Value(hg.Params[from]) {
+										hit = true
+									}
+									return true
+								})
+								return hit
+							}
+							if g != "" && src != g {
+								whyU = f + " is restored from carrier field " + src + " but was written to " + g
+								continue
+							}
+							// the helper stores through that parameter
+							stores := false
+							for _, gb := range hg.Blocks {
+								for _, gi := range gb.Instrs {
+									hst, ok := gi.(*ssa.Store)
+									if !ok || hst.Addr != ssa.Value(hg.Params[target]) || !onParam(hst.Val) {
+										continue
+									}
+									hconds, _ := eng.GuardingConds(hg, gi)
+									clean := true
+									for _, cd := range hconds {
+										if !onParam(cd) && !isErrCond(cd) {
+											clean = false
+										}
+									}
+									if clean {
+										stores = true
+									}
+								}
+							}
+							conds, _ := eng.GuardingConds(uj, in)
+							bad := ""
+							for _, cd := range conds {
+								if !eng.DependsOnField(cd, ckey+src) && !isErrCond(cd) && !isAnyLoopCond(cd) {
+									bad = p.Desc(cd)
+								}
+							}
+							if stores && bad == "" {
+								okU = true
+							}
+						}
+					}
+				}
 				c.Check(okU, "unmarshal:"+f, nil, uj, typeName+"."+f+" is restored from the same carrier field, unconditionally up to decode errors / emptiness of that field", whyU)
 			}
 			// the bytes returned are the JSON of that carrier
